@@ -29,6 +29,9 @@ type Op struct {
 	Val     string   `json:"val,omitempty"`
 	Co      int      `json:"co,omitempty"` // coroutine that executes the op (concurrent mode)
 	Factory bool     `json:"factory,omitempty"`
+	// Rep > 1: the write is executed Rep times in a loop (one source location executed hundreds of times:
+	// whatever the interpreter remembers per location only after it became "hot"); the last result counts
+	Rep int `json:"rep,omitempty"`
 }
 
 type W struct {
@@ -118,6 +121,9 @@ func gen(r *verifsim.Rng, tier string) (any, hx.Sched) {
 		}
 		if op.Mem == "ctor" {
 			op.Args = in.Args
+		}
+		if op.Mem != "ctor" && r.Intn(12) == 0 {
+			op.Rep = verifsim.Pick(r, []int{40, 300, 300, 700})
 		}
 		w.Ops = append(w.Ops, op)
 	}
@@ -266,6 +272,9 @@ func renderOp(op Op, idx int) string {
 		return fmt.Sprintf("__rec(\"w%d\", (function() { try { $x = new G6<%s>(%s); return \"A\"; } catch (\\Throwable $e) { return \"R\"; } })());\n", idx, strings.Join(op.Args, ", "), valueExpr[op.Val])
 	}
 	fn := map[string]string{"p": "wp", "q": "wq", "u": "wu", "a": "wa", "b": "wb", "set": "wset", "put": "wput", "c": "wc", "d": "wd", "fill": "wfill", "made": "wmade"}[op.Mem]
+	if op.Rep > 1 {
+		return fmt.Sprintf("for ($rep = 0; $rep < %d; $rep++) { $last = %s($o%d, %s); }\n__rec(\"w%d\", $last);\n", op.Rep, fn, op.Inst, valueExpr[op.Val], idx)
+	}
 	return fmt.Sprintf("__rec(\"w%d\", %s($o%d, %s));\n", idx, fn, op.Inst, valueExpr[op.Val])
 }
 
@@ -320,12 +329,14 @@ func runScript(t *testing.T, src string, s *hx.Sched) (recs map[string]string, f
 		}
 	}
 	if s == nil {
-		env = hx.NewEnv()
-		restore := env.Capture()
-		verifsim.SetMapConfig(&verifsim.MapConfig{Mode: verifsim.MapSorted})
-		run()
-		verifsim.SetMapConfig(nil)
-		restore()
+		// the reference runs (an instance alone in a fresh VM, the non-generic classes) are the only task of a
+		// simulation of their own: the seams (map order, sync.Pool, select, rand) are deterministic for them too
+		hx.RunBubble(t, verifsim.Config{MeanGap: 1 << 30, MaxSteps: 1000000, MapMode: verifsim.MapSorted}, func(sim *verifsim.Sim) {
+			env = hx.NewEnv()
+			env.Capture()
+			sim.Spawn("solo", run)
+		})
+		data.ResetOutputWriter()
 	} else {
 		res = hx.RunBubble(t, s.Config(0), func(sim *verifsim.Sim) {
 			env = hx.NewEnv()
